@@ -62,11 +62,11 @@ def resolve(scope, present):
 
 
 DEFAULT_USE = ("module", "plain", "direct")
-USE_FORMS = ["plain", "only-x", "only-other", "ONLY-other", "Only-x", "rename-away"]
+USE_FORMS = ["plain", "only-x", "only-other", "ONLY-other", "Only-x", "rename-away", "two-stmts", "two-stmts-rev"]
 
 
 def used_visible(useform):
-    return useform[1] in ("plain", "only-x", "Only-x")
+    return useform[1] in ("plain", "only-x", "Only-x", "two-stmts", "two-stmts-rev")
 
 
 def resolve_use(scope, present, useform):
@@ -128,7 +128,10 @@ def use_line(useform, dname, rname):
     form = useform[1]
     return {"plain": "use usedm", "only-x": f"use usedm, only: {rname}", "Only-x": f"USE usedm, Only : {rname}",
             "only-other": "use usedm, only: filler_u", "ONLY-other": "USE USEDM, ONLY: FILLER_U",
-            "rename-away": f"use usedm, hidden_x => {dname}"}[form]
+            "rename-away": f"use usedm, hidden_x => {dname}",
+            # the same module named by two USE statements of one scope with different only-lists
+            "two-stmts": f"use usedm, only: filler_u\nuse usedm, only: {rname}",
+            "two-stmts-rev": f"use usedm, only: {rname}\nuse usedm, only: filler_u"}[form]
 
 
 def build(slot, scope, present, case, order, useform=DEFAULT_USE):
@@ -181,7 +184,7 @@ def build(slot, scope, present, case, order, useform=DEFAULT_USE):
         p_s, p_c = local("self")
     else:
         p_s, p_c = local("hostproc")
-    hp = ["subroutine hostp()"] + (ind([uline]) if use_in_self and scope == "P" else []) + ind(p_s)
+    hp = ["subroutine hostp()"] + (ind(uline.split("\n")) if use_in_self and scope == "P" else []) + ind(p_s)
     if scope == "P":
         hp += ind(rs) + ind(rb)
     inner = list(p_c)
@@ -194,13 +197,13 @@ def build(slot, scope, present, case, order, useform=DEFAULT_USE):
         i_s, _ = local("self", as_iface=True)
         j_s, _ = local("sibling", as_iface=True)
         sibj = ["subroutine sibj()"] + ind(j_s) + ["end subroutine sibj"]
-        refi = ["subroutine refi()"] + (ind([uline]) if use_in_self else []) + ind(i_s) + ind(rs) + ind(rb) + ["end subroutine refi"]
+        refi = ["subroutine refi()"] + (ind(uline.split("\n")) if use_in_self else []) + ind(i_s) + ind(rs) + ind(rb) + ["end subroutine refi"]
         inner += (sibj + refi) if order == "before" else (refi + sibj)
     if inner:
         hp += ["contains"] + ind(inner)
     hp += ["end subroutine hostp"]
     procs = (sibq + hp) if order == "before" else (hp + sibq)
-    src = ["module hostm"] + ([] if use_in_self else ["  " + uline]) + ["  implicit none"] + ind(m_spec) + ["contains"] + ind(m_cont) + ind(procs) + ["end module hostm"]
+    src = ["module hostm"] + ([] if use_in_self else ind(uline.split("\n"))) + ["  implicit none"] + ind(m_spec) + ["contains"] + ind(m_cont) + ind(procs) + ["end module hostm"]
     files["src/m_host.f90"] = "\n".join(src) + "\n"
     return files
 
